@@ -39,7 +39,15 @@ class GetNotes(Stream):
 
     def gen(self, rng, n):
         for i in range(n):
-            yield {"score": sg.rand_score(rng, cont=0.3 if i % 3 == 0 else 0.15, rest=0.2 if i % 4 == 0 else 0.1)}
+            sc = sg.rand_score(rng, cont=0.3 if i % 3 == 0 else 0.15, rest=0.2 if i % 4 == 0 else 0.1)
+            if i % 7 == 0:
+                # zero-length notes (the library's own .n suffix): still notes - a continuation prolongs them, a relative note refers to them
+                for c in sc:
+                    for _, notes in c["parts"]:
+                        for nt in notes:
+                            if nt["kind"] not in "rl" and rng.random() < 0.25:
+                                nt["dur"] = F(0)
+            yield {"score": sc}
 
     def impl(self, case):
         def f():
